@@ -125,6 +125,11 @@ pub fn compare_traces(pred: &Pred, act: &Actual, top_ok_and_events_agree: Option
                                 owners.push("C02");
                             }
                             what = format!("the reply for this sub-message is due here (sub-message {})", if *child_ok { "succeeded" } else { "failed" });
+                            // the failure to be reported is a malformed response: it must be handled "with
+                            // the same rollback as any other contract error", i.e. be catchable like one (C13)
+                            if !child_ok && whys.iter().any(|x| matches!(x, Why::AfterMalformed)) {
+                                owners.push("C13");
+                            }
                         }
                     }
                 }
